@@ -253,6 +253,9 @@ let sop_of (slots : (int, n list) Hashtbl.t) (t : string array) (impl : string) 
   | "fl" | "ver" | "hfl" | "hlen" | "hpos" -> Some None
   | _ -> None
 
+let noimg_mode = ref false
+let refuse_mode = ref false
+let refusals = ref 0
 let spec_mode = ref false
 let wf_mode = ref false
 let abs_mode = ref false
@@ -263,7 +266,7 @@ let abs_checks = ref 0
 (* ---------- replay of one trace file ---------- *)
 type hist = { mutable f : fstate option; mutable id : string; mutable step : int;
               mutable ok : bool; mutable last_img : string; mutable check_img : bool;
-              mutable tree : node option; slots : (int, n list) Hashtbl.t }
+              mutable tree : node option; slots : (int, n list) Hashtbl.t; mutable refused : string }
 
 let mismatches = ref 0
 let histories = ref 0
@@ -275,7 +278,7 @@ let split_ws s = Array.of_list (List.filter (fun x -> x <> "") (String.split_on_
 
 let replay_file (path : string) =
   let ic = open_in path in
-  let h = { f = None; id = ""; step = 0; ok = true; last_img = ""; check_img = true; tree = None; slots = Hashtbl.create 8 } in
+  let h = { f = None; id = ""; step = 0; ok = true; last_img = ""; check_img = true; tree = None; slots = Hashtbl.create 8; refused = "" } in
   let report kind detail =
     if h.ok then begin
       incr mismatches;
@@ -334,6 +337,7 @@ let replay_file (path : string) =
            bump ("res:" ^ (if String.length impl >= 4 && String.sub impl 0 4 = "err:" then impl else if impl = "panic" then "panic" else "ok"));
            (match r with Panic _ | OutOfFuel -> incr model_bad | _ -> ());
            h.f <- Some f';
+           h.refused <- (if impl = "err:NotFound" || impl = "err:AlreadyExists" || impl = "err:InvalidInput" then lhs ^ " => " ^ impl else "");
            (if !spec_mode then match h.tree with
              | None -> ()
              | Some tr ->
@@ -368,6 +372,11 @@ let replay_file (path : string) =
          | Some f ->
            let impl = if String.length line >= 3 && line.[2] = '=' then h.last_img
                       else String.sub line 2 (String.length line - 2) in
+           (if !refuse_mode && h.refused <> "" then begin
+              incr refusals;
+              if impl <> h.last_img then
+                report "refuse" (Printf.sprintf "a refused call changed the bytes: [%s] first_diff_byte=%d" h.refused (first_diff impl h.last_img))
+            end);
            h.last_img <- impl;
            incr images;
            (if !wf_mode && not (String.length line >= 3 && line.[2] = '=') then begin
@@ -375,7 +384,7 @@ let replay_file (path : string) =
               let code = int_of_n (wf_check (dec_hex impl)) in
               if code <> 0 then report "wf" (Printf.sprintf "independent checker rejects the implementation's image: rule %d" code)
             end);
-           let mine = hex_of_img f in
+           let mine = if !noimg_mode then impl else hex_of_img f in
            if mine <> impl then
              report "image" (Printf.sprintf "len_model=%d len_impl=%d first_diff_byte=%d"
                (String.length mine / 2) (String.length impl / 2) (first_diff mine impl)))
@@ -390,12 +399,14 @@ let () =
   let args = List.tl (Array.to_list Sys.argv) in
   let files = List.filter (fun a ->
     match a with
+    | "--noimg" -> noimg_mode := true; false
+    | "--refuse" -> refuse_mode := true; false
     | "--spec" -> spec_mode := true; false
     | "--wf" -> wf_mode := true; false
     | "--abs" -> abs_mode := true; false
     | _ -> true) args in
   List.iter replay_file files;
-  Printf.printf "SUMMARY histories=%d steps=%d images=%d mismatches=%d model_panic_or_fuel=%d spec_steps=%d wf_images=%d abs_checks=%d\n"
-    !histories !steps !images !mismatches !model_bad !spec_steps !wf_images !abs_checks;
+  Printf.printf "SUMMARY histories=%d steps=%d images=%d mismatches=%d model_panic_or_fuel=%d spec_steps=%d wf_images=%d abs_checks=%d refusals=%d\n"
+    !histories !steps !images !mismatches !model_bad !spec_steps !wf_images !abs_checks !refusals;
   Hashtbl.iter (fun k v -> Printf.printf "COV %s %d\n" k v) cov;
   exit (if !mismatches > 0 then 1 else 0)
